@@ -122,7 +122,7 @@ theorem EngOK.getPv0 {s : Eng M} (h : EngOK g Q D s) (ply : Nat) (site : String)
   · rename_i x hx; exact Sat.ok (h.pv0 ply x hx)
   · exact Sat.error
 
-theorem respGet_mem [DecidableEq M] (l : List (M × M)) (k v : M) (h : respGet l k = some v) : (k, v) ∈ l := by
+theorem respGet_mem_pair [DecidableEq M] (l : List (M × M)) (k v : M) (h : respGet l k = some v) : (k, v) ∈ l := by
   induction l with
   | nil => cases h
   | cons kv rest ih =>
@@ -338,7 +338,7 @@ theorem iterate_q [DecidableEq M] (hb : BodyQ g p body Q I Qb Qr) (cfg : SOpts) 
           · rename_i prev _
             have hr' : respGet s.response prev = some r := by
               injection hr
-            exact hresp a s hi prev r (respGet_mem _ _ _ hr')
+            exact hresp a s hi prev r (respGet_mem_pair _ _ _ hr')
           · cases hr
   exact andThen_q (andThen_q h0 h1) h23
 
